@@ -295,6 +295,37 @@ fn check_depth(c: &DepthCase) -> PResult {
             }
         }
     }
+    // the same value as a field of an enclosing struct (how generated code meets an unknown
+    // field): the enclosing struct is one more level for the reader's own bookkeeping
+    for pk in [PKind::Binary, PKind::BinaryLe, PKind::Compact] {
+        let st = TVal::Struct(vec![(3, v.clone()), (4, TVal::I32(9))]);
+        let data = vcore::refthrift::encode(pk.ref_proto(), &st);
+        let mut bytes = Bytes::from(data);
+        let r = catch(|| {
+            with_reader!(pk, &mut bytes, |p| {
+                p.read_struct_begin()?;
+                let f = p.read_field_begin()?;
+                let n = p.skip(f.field_type)?;
+                p.read_field_end()?;
+                let f2 = p.read_field_begin()?;
+                let x = p.read_i32()?;
+                p.read_field_end()?;
+                let stop = p.read_field_begin()?;
+                p.read_struct_end()?;
+                Ok::<_, pilota::thrift::ThriftException>((n, f2.id, x, stop.field_type))
+            })
+        });
+        match r {
+            Err(p) => return Err(Fail::new(&format!("depth-field-panic-{:?}", pk), format!("{:?}: skipping nesting {} as a field of a struct panicked: {}", pk, c.depth + 1, p))),
+            Ok(Ok((_, id, x, stop))) => {
+                ensure!(!expect_err, &format!("depth-not-refused-{:?}", pk), "{:?}: nesting {} in field position was skipped instead of refused", pk, c.depth + 1);
+                ensure!(id == Some(4) && x == 9 && stop == TType::Stop, &format!("depth-field-follow-{:?}", pk), "{:?}: after skipping nesting {} the following field read as id {:?} value {} then {:?}", pk, c.depth + 1, id, x, stop);
+            }
+            Ok(Err(e)) => {
+                ensure!(!expect_ok, &format!("depth-refused-early-{:?}", pk), "{:?}: nesting {} in field position refused although within the documented limit: {:?}", pk, c.depth + 1, e);
+            }
+        }
+    }
     // unchecked iterative skipper: documents no limit => exact skip or DepthLimit, never a crash
     {
         let st = TVal::Struct(vec![(1, v.clone())]);
